@@ -285,6 +285,14 @@ func RunPath(mainpkg *ssa.Package, sizes types.Sizes, entry string, prefix []Dec
 			recordViolation(v)
 		}
 	}
+	if status == "unwind" && Cfg.UnwindViolation {
+		v := Violation{Label: "terminates-within-step-bound", Kind: "panic", Detail: detail, Decisions: decisionsString(P.Prefix)}
+		if r, m := S.Check(nil, sortedInputs()); r.String() == "sat" {
+			v.Model = m
+		}
+		recordViolation(v)
+		status = "nontermination"
+	}
 	if status == "deadlock" {
 		v := Violation{Label: "no-deadlock", Kind: "deadlock", Detail: detail, Decisions: decisionsString(P.Prefix)}
 		if r, m := S.Check(nil, sortedInputs()); r.String() == "sat" {
